@@ -274,8 +274,7 @@ example (e1 e2 : Entry) (t1 t2 : String) (h1 : entryLine e1 = .ok (some t1)) (h2
   simp [Proj621.requiresDist, h1, h2, bind, Except.bind, pure, Except.pure]
 
 /-- **an entry of `[project] dependencies` whose marker has no `extra` clause is mandatory and not a member of an
-extra**, hence written iff its marker is not empty.  (With an `extra` clause this is FALSE of code and model — see
-`pep621_extra_marker_counterexample`.) -/
+extra**, hence written iff its marker is not empty (the general statement: `pep621_entry_selected_iff`) -/
 theorem pep621_plain_entry_selected (text : String) (d : Dep) (h : createFromPep508Top text = .ok d)
     (hx : convertMarkersFor "extra" d.marker = .ok none) (hreq : ∀ req, Req.parseL (stripComment text.toList) = .ok req →
       req.url = none) :
@@ -322,24 +321,91 @@ theorem pep621_plain_entry_selected (text : String) (d : Dep) (h : createFromPep
           refine ⟨by rw [hopt, hd0.1], by rw [hin, hd0.2], ?_⟩
           simp [selected, hopt, hd0.1]
 
-/-- **where the code drops a declared dependency** (candidate defect, replayed on poetry-core: `[project] dependencies =
-["colorama>=0.4 ; extra != 'x'"]` gives no Requires-Dist line): the `marker` setter makes a dependency optional as soon
-as its marker mentions `extra`, but records membership only for `==` clauses; a marker whose `extra` clauses are all
-`!=` leaves it optional and member of no extra, and `Metadata.from_package` skips it -/
-theorem pep621_extra_marker_counterexample (d d' : Dep) (m : M) (groups : List (List (String × String)))
+/-- **regression (poetry-core ad4e259): a marker that only EXCLUDES extras leaves the dependency mandatory** — the
+`marker` setter used to make a dependency optional as soon as its marker mentioned `extra`, while recording membership
+only for `==` clauses; `[project] dependencies = ["colorama>=0.4 ; extra != 'x'"]` then had no Requires-Dist line -/
+theorem extra_exclusion_keeps_mandatory (d d' : Dep) (m : M) (groups : List (List (String × String)))
     (h : d.setMarker m = .ok d') (hx : convertMarkersFor "extra" m = .ok (some groups))
-    (hnone : inExtrasOf groups = []) (hd : d.inExtras = []) :
-    d'.optional = true ∧ d'.inExtras = [] ∧ selected d' = false := by
+    (hnone : inExtrasOf groups = []) :
+    d'.optional = d.optional ∧ d'.inExtras = d.inExtras := by
   unfold Dep.setMarker at h
-  simp only [bind, Except.bind, pure, Except.pure, hx] at h
+  simp only [bind, Except.bind, pure, Except.pure, hx, hnone, List.isEmpty_nil, if_true, List.append_nil] at h
   cases h2 : convertMarkersFor "python_version" m with
   | error e => simp [h2] at h
   | ok py =>
     simp only [h2] at h
-    cases py <;> simp only [] at h <;> (repeat' split at h) <;>
-      first | (cases h; simp [selected, hd, hnone]) | (cases h)
+    cases py <;> simp only [] at h <;> (repeat' split at h) <;> first | (cases h; exact ⟨rfl, rfl⟩) | (cases h)
 
-/-- the groups `convert_markers` reports for `extra != "x"` record no membership -/
+/-- **after the `marker` setter, a dependency that was mandatory is written iff its marker is not empty** — whatever
+the marker says about extras: either it puts the dependency into no extra and leaves it mandatory, or it makes it an
+optional member of at least one extra -/
+theorem setMarker_selected (d d' : Dep) (m : M) (h : d.setMarker m = .ok d') (ho : d.optional = false) :
+    selected d' = !m.isEmpty := by
+  unfold Dep.setMarker at h
+  simp only [bind, Except.bind, pure, Except.pure] at h
+  cases h1 : convertMarkersFor "extra" m with
+  | error e => simp [h1] at h
+  | ok ex =>
+    simp only [h1] at h
+    cases h2 : convertMarkersFor "python_version" m with
+    | error e => simp [h2] at h
+    | ok py =>
+      simp only [h2] at h
+      cases ex with
+      | none =>
+        cases py <;> simp only [] at h <;> (repeat' split at h) <;>
+          first | (cases h; simp [selected, ho]) | (cases h)
+      | some groups =>
+        by_cases hg : (inExtrasOf groups).isEmpty = true
+        · simp only [hg, if_true] at h
+          cases py <;> simp only [] at h <;> (repeat' split at h) <;>
+            first | (cases h; simp [selected, ho]) | (cases h)
+        · have hg' : (inExtrasOf groups).isEmpty = false := by simpa using hg
+          have hne : (d.inExtras ++ inExtrasOf groups).isEmpty = false := by
+            cases hx : inExtrasOf groups with
+            | nil => simp [hx] at hg'
+            | cons a r => simp
+          simp only [hg', Bool.false_eq_true, if_false] at h
+          cases py <;> simp only [] at h <;> (repeat' split at h) <;>
+            first | (cases h; simp [selected, hne]) | (cases h)
+
+/-- **an entry of `[project] dependencies` (a registry requirement) is written iff its marker is not empty** — no
+restriction on the marker (holds since poetry-core ad4e259; before, an `extra != …` clause dropped the line) -/
+theorem pep621_entry_selected_iff (text : String) (d : Dep) (h : createFromPep508Top text = .ok d)
+    (hreq : ∀ req, Req.parseL (stripComment text.toList) = .ok req → req.url = none) :
+    selected d = !d.marker.isEmpty := by
+  have h' := (createFromPep508Top_ok_iff text d).mp h
+  unfold createFromPep508 createFromPep508L at h'
+  cases hp : Req.parseL (stripComment text.toList) with
+  | error e => simp [hp, bind, Except.bind] at h'
+  | ok req =>
+    have hurl := hreq req hp
+    simp only [hp, bind, Except.bind] at h'
+    unfold fromReq at h'
+    simp only [hurl, bind, Except.bind, pure, Except.pure] at h'
+    split at h'
+    · cases h'
+    · cases hm : mkRegistry req.name req.constraint req.extras with
+      | error e => simp [hm] at h'
+      | ok d0 =>
+        simp only [hm] at h'
+        have hd0 : d0.optional = false ∧ d0.marker = .any := by
+          simp only [mkRegistry, Spec.make, normalizeSourceUrl, truthy, mkDep, bind, Except.bind, pure, Except.pure,
+            Bool.false_and, Bool.false_eq_true, if_false] at hm
+          cases hs : req.constraint.toStr with
+          | error e => simp [hs] at hm
+          | ok s => simp only [hs] at hm; cases hm; exact ⟨rfl, rfl⟩
+        cases hmk : req.marker with
+        | none =>
+          simp only [hmk] at h'
+          cases h'
+          simp [selected, hd0.1, hd0.2, M.isEmpty]
+        | some m =>
+          simp only [hmk] at h'
+          rw [setMarker_marker d0 d m h']
+          exact setMarker_selected d0 d m h' hd0.1
+
+/-- the groups `convert_markers` reports for `extra != "x"` record no membership (the witness of ad4e259) -/
 example : inExtrasOf [[("!=", "x")]] = [] := by decide
 
 /-! ## Provides-Extra -/
